@@ -222,9 +222,12 @@ func replayCli(args []string) (any, error) {
 		if v.Cfg.Mode == "workspace_ppl" {
 			mainName = "main.ppl"
 		}
+		if v.Cfg.Kind == "selfUse" {
+			main = fmt.Sprintf("add_key(keep, 1)\nuse(%q)\n", mainName)
+		}
 		scripts := map[string]string{mainName: main}
 		_ = os.WriteFile(filepath.Join(ws, mainName), []byte(main), 0o644)
-		if v.Cfg.Mode != "single" {
+		if v.Cfg.Mode != "single" && v.Cfg.Mode != "workspace_lone" {
 			// a decoy with the other extension and the same stem must not be picked
 			decoy := "main.ppl"
 			if mainName == "main.ppl" {
